@@ -576,7 +576,8 @@ class NearestNeighborModel(Model):
         Parameters
         ----------
         tol_zero : float
-            Arrays with norm < `tol_zero` are considered to be zero.
+            Arrays with norm < `tol_zero` are considered to be zero. For the two-site part of a
+            bond term with norm > 1, the threshold is relative to the norm of that bond term.
 
         Returns
         -------
@@ -589,6 +590,7 @@ class NearestNeighborModel(Model):
         bc = self.lat.bc_MPS
         sites = self.lat.mps_sites()
         L = len(sites)
+        chinfo = sites[0].leg.chinfo
         onsite_terms = [None] * L  # onsite terms on each site `i`
         bond_XYZ = [None] * L  # svd of couplings on each bond (i-1, i)
         chis = [2] * (L + 1)
@@ -598,6 +600,8 @@ class NearestNeighborModel(Model):
                 continue
             j = (i - 1) % L
             Hb = Hb.transpose(['p0', 'p0*', 'p1', 'p1*'])
+            # rounding errors of the subtractions below scale with the norm of Hb
+            tol_zero_Hb = tol_zero * max(1.0, npc.norm(Hb))
             d_L, d_R = sites[j].dim, sites[i].dim  # dimension of local hilbert space:
             Id_L, Id_R = sites[j].Id, sites[i].Id
             if i == 0:  # i==0 and j==(-1 % L)==L-1
@@ -612,12 +616,12 @@ class NearestNeighborModel(Model):
             if npc.norm(onsite_R) > tol_zero:
                 Hb -= npc.outer(Id_L, onsite_R)
                 onsite_terms[i] = add_with_None_0(onsite_terms[i], onsite_R)
-            if npc.norm(Hb) < tol_zero:
+            if npc.norm(Hb) < tol_zero_Hb:
                 continue
             Hb = Hb.combine_legs([['p0', 'p0*'], ['p1', 'p1*']])
             chinfo = Hb.chinfo
             qtotal = [chinfo.make_valid(), chinfo.make_valid()]  # zero charge
-            X, Y, Z = npc.svd(Hb, cutoff=tol_zero, inner_labels=['wR', 'wL'], qtotal_LR=qtotal)
+            X, Y, Z = npc.svd(Hb, cutoff=tol_zero_Hb, inner_labels=['wR', 'wL'], qtotal_LR=qtotal)
             assert len(Y) > 0
             chis[i] = len(Y) + 2
             X = X.split_legs([0])
